@@ -132,6 +132,8 @@ def check_place_transitions(ctx, prog, I):
             if not bad:
                 for i in range(64):
                     d = B.deps(nb['all'].bits[i])
+                    if nb['all'].bits[i] is B.bor(old['all'].bits[i], pbit.bits[i]):
+                        continue      # all_pieces gains the placement bit: with all = union before (C10), it is the union after
                     if not ({(t, i) for t in ('e', 'm', 'h', 'd', 'c', 'r')} <= d and B.deps(pbit.bits[i]) <= d):
                         bad = 'all_pieces at %s is not the union of the six new type boards' % G.name(i)
                         break
